@@ -64,6 +64,31 @@ pub fn be_verify(r: &mut QueryServerReadTransaction<'_>) -> Vec<String> {
         .collect()
 }
 
+/// The replication update vector as a READ transaction holds it: (number of change ids in it, greatest
+/// change timestamp in it).
+pub fn reader_ruv(r: &mut QueryServerReadTransaction<'_>) -> (usize, Duration) {
+    use crate::repl::ruv::ReplicationUpdateVectorTransaction;
+    let ruv = r.get_be_txn().get_ruv();
+    let snap = ruv.ruv_snapshot();
+    let mut n = 0usize;
+    let mut max = Duration::ZERO;
+    for (cid, _) in snap.iter() {
+        n += 1;
+        if cid.ts > max {
+            max = cid.ts;
+        }
+    }
+    (n, max)
+}
+
+/// The index metadata a READ transaction resolves filters with: (number of index keys, whether any
+/// index on `attr` is among them).
+pub fn reader_idxmeta(r: &mut QueryServerReadTransaction<'_>, attr: &str) -> (usize, bool) {
+    let m = r.get_be_txn().get_idxmeta_ref();
+    let has = m.idxkeys.keys().any(|k| k.attr.as_str() == attr);
+    (m.idxkeys.len(), has)
+}
+
 // --------------------------------------------------------------------- H2: storage fault injector
 //
 // Call sites: `#[cfg(feature = "verif-hooks")] crate::verif::txn::storage_point("name")?;` before each
